@@ -15,7 +15,8 @@ Both stacks are kept top-first (`state_stack[-1]` is the head), the word on the 
 
 Python failure modes kept explicit: `sorted_symbols[-1]` on an empty alphabet (`IndexError`,
 finding F14), `symbol_succ[candidate]` for a popped symbol outside the alphabet (`KeyError`,
-finding F13); both are outside the property's domain and unreachable inside it.
+finding F13); both are open findings of C14 (proved to occur: Proofs/SuccForeign.lean) and
+unreachable for start strings over a non-empty alphabet.
 The generator can be infinite (forward direction on an infinite language without
 `max_length`), hence the loop takes `fuel` = number of loop iterations and reports
 `outOfFuel`; results are monotone in the fuel.
@@ -184,10 +185,12 @@ def successors (d : DFA σ α) (key : α → Int) (input : Option (List α)) (o 
     (fuel : Nat) : List (List α) × SuccStatus :=
   d.successorsCore (d.finiteGuard o.reverse) d.digraph key input o fuel
 
-/-- `predecessors(input_str, …)` = `successors(input_str, …, reverse=True)`. -/
-def predecessors (d : DFA σ α) (key : α → Int) (input : List α) (o : SuccOpts) (fuel : Nat) :
+/-- `predecessors(input_str, …)` = `successors(input_str, …, reverse=True)`.  The annotation
+says `str`, but the argument is passed through unchanged, so `predecessors(None)` (all words
+in decreasing order) is accepted like `successors(None, reverse=True)`. -/
+def predecessors (d : DFA σ α) (key : α → Int) (input : Option (List α)) (o : SuccOpts) (fuel : Nat) :
     List (List α) × SuccStatus :=
-  d.successors key (some input) { o with reverse := true } fuel
+  d.successors key input { o with reverse := true } fuel
 
 /-- Result of the single-step wrappers: `for word in gen: return word; return None`. -/
 inductive FirstResult (α : Type)
@@ -209,8 +212,8 @@ def successor (d : DFA σ α) (key : α → Int) (input : Option (List α)) (o :
     (fuel : Nat) : FirstResult α :=
   firstOf (d.successors key input { o with reverse := false } fuel)
 
-/-- `predecessor(input_str, …)`. -/
-def predecessor (d : DFA σ α) (key : α → Int) (input : List α) (o : SuccOpts) (fuel : Nat) :
+/-- `predecessor(input_str, …)` (`None` is passed through to `predecessors`). -/
+def predecessor (d : DFA σ α) (key : α → Int) (input : Option (List α)) (o : SuccOpts) (fuel : Nat) :
     FirstResult α :=
   firstOf (d.predecessors key input o fuel)
 
